@@ -168,6 +168,117 @@ fn main() {
 				}
 			}
 		}
+		// non-acquiring operations (Debug, is_poisoned, clear_poison) in every hold state: locks held
+		// by another thread, by the caller through a live guard or a running closure, or free;
+		// with one-shot faults inside Debug's try/unlock
+		"nonacq" => {
+			for n in 1..=maxn.min(3) {
+				for kinds in kinds_menu(n, quick) {
+					let rw_all = kinds.iter().all(|k| *k);
+					for perm in perms_menu(n, true, &mut rng) {
+						for (_name, colls) in shape_menu(n, &kinds, depth) {
+							let tgt = colls.len() - 1;
+							for held in held_patterns(n, &kinds, n <= 2) {
+								let free = held.iter().all(|h| *h == b'F');
+								let mut progs: Vec<Vec<Stmt>> = vec![vec![Stmt::Dbg(tgt), Stmt::IsPoisoned(tgt)]];
+								if free {
+									for c in 0..colls.len() {
+										progs.push(vec![
+											Stmt::Get,
+											session(tgt, Api::Lock, true, true, vec![Step::Dbg(c), Step::Read(0), Step::IsPoisoned(tgt)], Exit::Drop),
+											Stmt::Dbg(c),
+										]);
+										progs.push(vec![
+											Stmt::Get,
+											session(tgt, Api::Scoped, true, false, vec![Step::Dbg(c), Step::Write(0, 9), Step::Dbg(c)], Exit::Ret),
+											Stmt::ClearPoison(tgt),
+											Stmt::Dbg(c),
+										]);
+										if rw_all {
+											progs.push(vec![
+												Stmt::Get,
+												session(tgt, Api::Lock, false, true, vec![Step::Dbg(c), Step::Read(0)], Exit::Unlock),
+												session(tgt, Api::ScopedTry, false, false, vec![Step::Dbg(c)], Exit::Ret),
+											]);
+										}
+									}
+								}
+								for prog in progs {
+									let c = base(format!("{family}{bi}"), n, &perm, &colls, &held, prog);
+									bi += 1;
+									let b = Budget { refusals: 0, faults: 1, max_runs: 300 };
+									sink_runs += explore(&c, b, &mut |c, r| out.emit(c, r));
+								}
+							}
+						}
+					}
+				}
+			}
+		}
+		// single-thread histories over the key-affecting vocabulary (C06, C03) on a tiny world:
+		// m0 free, m1 write-held by another thread (so that try fails), P0(m0)
+		"hist" => {
+			let colls = vec![Expr::M(0), Expr::M(1), Expr::B(Box::new(Expr::V(vec![Expr::C(0)]))), Expr::P(0, Box::new(Expr::R(2)))];
+			let mut alpha: Vec<Stmt> = vec![Stmt::Get, Stmt::DropKey, Stmt::ForgetKey];
+			for (c, apis) in [
+				(0usize, vec![Api::Lock, Api::Try, Api::Scoped, Api::ScopedTry]),
+				(1, vec![Api::Try, Api::ScopedTry]),
+				(2, vec![Api::Lock, Api::Scoped]),
+				(3, vec![Api::Lock, Api::ScopedTry]),
+			] {
+				for api in apis {
+					let scoped = matches!(api, Api::Scoped | Api::ScopedTry);
+					if scoped {
+						for owned in [true, false] {
+							for e in [Exit::Ret, Exit::Panic] {
+								alpha.push(session(c, api, true, owned, vec![Step::GetKey], e));
+							}
+						}
+					} else {
+						for e in [Exit::Drop, Exit::Unlock, Exit::Forget, Exit::Panic] {
+							if e == Exit::Forget && c != 0 {
+								continue;
+							}
+							alpha.push(session(c, api, true, true, vec![Step::GetKey], e));
+						}
+					}
+				}
+			}
+			let maxlen = if quick { 3 } else { 4 };
+			let mut seqs: Vec<Vec<usize>> = vec![vec![]];
+			let mut all: Vec<Vec<usize>> = Vec::new();
+			for _ in 0..maxlen {
+				let mut nxt = Vec::new();
+				for s in &seqs {
+					for a in 0..alpha.len() {
+						let mut s2 = s.clone();
+						s2.push(a);
+						nxt.push(s2);
+					}
+				}
+				all.extend(nxt.iter().cloned());
+				seqs = nxt;
+			}
+			// plus seeded long histories
+			for _ in 0..(if quick { 2000 } else { 20000 }) {
+				let len = 5 + rng.below(if quick { 4 } else { 6 });
+				all.push((0..len).map(|_| rng.below(alpha.len())).collect());
+			}
+			for sq in all {
+				let prog: Vec<Stmt> = sq.iter().map(|i| alpha[*i].clone()).collect();
+				let c = Case {
+					id: format!("{family}{bi}"),
+					n: 3,
+					addr: vec![0, 2, 4],
+					colls: colls.clone(),
+					held: b"FWF".to_vec(),
+					prog,
+					script: vec![],
+				};
+				bi += 1;
+				sink_runs += explore(&c, Budget { refusals: 0, faults: 0, max_runs: 1 }, &mut |c, r| out.emit(c, r));
+			}
+		}
 		_ => {
 			eprintln!("unknown family {family}");
 			std::process::exit(2);
